@@ -223,3 +223,36 @@ Proof.
   intros Hin. apply H1. apply in_map_iff in Hin as (x & Hx & Hf). apply filter_In in Hf as [Hf _].
   apply in_map_iff. exists x. split; assumption.
 Qed.
+
+(* ---------- string forms ---------- *)
+From GV Require Import Proofs.SplitJoin Proofs.IntStr.
+(* "seqid:start-end" = (seqid, start, end): the string form of region() is parsed into the tuple form *)
+Theorem l_forms_string_tuple seqid s e strand ft cw : ~ In 58%N seqid -> 0 <= s -> 0 <= e ->
+  region_of_form (RString (seqid ++ colon ++ str_of_int s ++ dash ++ str_of_int e)) strand ft cw
+  = region_of_form (RTuple seqid (Some s) (Some e)) strand ft cw.
+Proof.
+  intros Hc Hs He. unfold region_of_form, colon, dash.
+  assert (Hd : forall n, 0 <= n -> ~ In 45%N (str_of_int n)) by (intros n Hn; apply str_of_nonneg_no_char; [exact Hn|reflexivity]).
+  assert (Hk : forall n, 0 <= n -> ~ In 58%N (str_of_int n)) by (intros n Hn; apply str_of_nonneg_no_char; [exact Hn|reflexivity]).
+  change (seqid ++ [58%N] ++ str_of_int s ++ [45%N] ++ str_of_int e) with (seqid ++ 58%N :: (str_of_int s ++ 45%N :: str_of_int e)).
+  rewrite split1_head by exact Hc.
+  rewrite split1_nosep.
+  2:{ intros Hin. apply in_app_or in Hin as [Hin|[Hin|Hin]]; [exact (Hk s Hs Hin)|discriminate|exact (Hk e He Hin)]. }
+  rewrite split1_head by (apply Hd; exact Hs). rewrite split1_nosep by (apply Hd; exact He).
+  rewrite !int_str_roundtrip. reflexivity.
+Qed.
+
+Theorem l_limit_string_tuple seqid s e : ~ In 58%N seqid -> 0 <= s -> 0 <= e ->
+  limit_of_form (LString (seqid ++ colon ++ str_of_int s ++ dash ++ str_of_int e)) = limit_of_form (LTuple (mkLimit seqid s e)).
+Proof.
+  intros Hc Hs He. unfold limit_of_form, colon, dash.
+  assert (Hd : forall n, 0 <= n -> ~ In 45%N (str_of_int n)) by (intros n Hn; apply str_of_nonneg_no_char; [exact Hn|reflexivity]).
+  assert (Hk : forall n, 0 <= n -> ~ In 58%N (str_of_int n)) by (intros n Hn; apply str_of_nonneg_no_char; [exact Hn|reflexivity]).
+  change (seqid ++ [58%N] ++ str_of_int s ++ [45%N] ++ str_of_int e) with (seqid ++ 58%N :: (str_of_int s ++ 45%N :: str_of_int e)).
+  destruct (seqid ++ 58%N :: str_of_int s ++ 45%N :: str_of_int e) as [|c0 r0] eqn:E; [destruct seqid; discriminate|]. rewrite <- E.
+  rewrite split1_head by exact Hc.
+  rewrite split1_nosep.
+  2:{ intros Hin. apply in_app_or in Hin as [Hin|[Hin|Hin]]; [exact (Hk s Hs Hin)|discriminate|exact (Hk e He Hin)]. }
+  rewrite split1_head by (apply Hd; exact Hs). rewrite split1_nosep by (apply Hd; exact He).
+  rewrite !int_str_roundtrip. reflexivity.
+Qed.
